@@ -12,6 +12,7 @@ import (
 
 // C07: the sequencer is a linearizable 16-bit counter with exact rollover count.
 // opcode 701: kind start [ops] [observed]   (op 0 = NextSequenceNumber, 1 = RollOverCount)
+// opcode 703: [[r0 v r1]...]  a goroutine's recorded (RollOverCount, Next, RollOverCount) trace from the stress run
 // opcode 702: draw [ops]    NewRandomSequencer with the generator stubbed through the verif hook
 // The generator runs N goroutines against one sequencer, records every call with tickets taken
 // from a global atomic counter before and after it, reconstructs the only possible linearization
@@ -150,6 +151,75 @@ func linearize(all []call, first uint16) (ordered []call, why string) {
 	return ordered, ""
 }
 
+// ---- stress: many wraps under real parallelism, checked with a sound per-goroutine rule -------------
+// Every goroutine repeats (RollOverCount, NextSequenceNumber, RollOverCount).  In any linearization
+// the rollover count at the instant a value v is issued lies between the two reads around it, so its
+// extended value E = roc*65536 + v lies in [r0*65536+v, r1*65536+v]; the property says E strictly
+// increases in issue order, in particular along one goroutine's own calls.  A trace for which no
+// choice of E_i in those intervals increases is a violation whatever the schedule was.
+type triple struct{ r0, v, r1 uint64 }
+
+func traceViolation(tr []triple) (int, string) {
+	last := int64(-1)
+	for i, t := range tr {
+		if t.r1 < t.r0 {
+			return i, fmt.Sprintf("RollOverCount went back from %d to %d around a call", t.r0, t.r1)
+		}
+		e := int64(t.r0)*65536 + int64(t.v)
+		for e <= last && uint64(e/65536) < t.r1 {
+			e += 65536
+		}
+		if e <= last {
+			return i, fmt.Sprintf("value %d with RollOverCount %d..%d around it cannot come after extended value %d", t.v, t.r0, t.r1, last)
+		}
+		last = e
+	}
+	return -1, ""
+}
+
+func stressRun(s rtp.Sequencer, goroutines, perG int) (window []triple, why string) {
+	var wg sync.WaitGroup
+	traces := make([][]triple, goroutines)
+	start := make(chan struct{})
+	for g := 0; g < goroutines; g++ {
+		wg.Add(1)
+		go func(g int) {
+			defer wg.Done()
+			tr := make([]triple, 0, perG)
+			<-start
+			for i := 0; i < perG; i++ {
+				r0 := s.RollOverCount()
+				v := s.NextSequenceNumber()
+				r1 := s.RollOverCount()
+				tr = append(tr, triple{r0, uint64(v), r1})
+			}
+			traces[g] = tr
+		}(g)
+	}
+	close(start)
+	wg.Wait()
+	counts := make(map[uint16]int)
+	for _, tr := range traces {
+		for _, t := range tr {
+			counts[uint16(t.v)]++
+		}
+		if i, w := traceViolation(tr); i >= 0 {
+			lo := i - 3
+			if lo < 0 {
+				lo = 0
+			}
+			return tr[lo : i+1], w
+		}
+	}
+	total := goroutines * perG
+	for v, c := range counts {
+		if c < total/65536 || c > total/65536+1 {
+			return []triple{{0, uint64(v), 0}}, fmt.Sprintf("value %d handed out %d times in %d calls", v, c, total)
+		}
+	}
+	return nil, ""
+}
+
 // stubRand is the generator installed through the verif hook: every method returns the draw d,
 // clamped to the method's range.
 type stubRand struct{ d *big.Int }
@@ -185,7 +255,7 @@ func emitHistory(emit func(op int, toks ...Tok), kind int, start int64, ordered 
 func init() {
 	register(&Prop{
 		ID:       "C07",
-		Rule:     "N in {2,4,8,16} goroutines x K calls on one sequencer (binary built with -race), RollOverCount interleaved every 7th call, fixed starts over all 65536 values (thorough) / 1024 (quick) with short runs and 64 starts near the wrap with >= 3 wraps, random sequencers; each observed history is linearized from invocation/response tickets and re-executed sequentially on the implementation and on the model; non-trivial = history with at least one wrap or at least two goroutines",
+		Rule:     "N in {2,4,8,16} goroutines x K calls on one sequencer (binary built with -race), RollOverCount interleaved every 7th call, fixed starts over all 65536 values (thorough) / 1024 (quick) with short runs and 64 starts near the wrap with >= 3 wraps, random sequencers; 16 goroutines x 70000 (quick) / 400000 (thorough) iterations of (RollOverCount, Next, RollOverCount) over several wraps, each goroutine's trace checked for a consistent strictly increasing extended value; each observed history of the smaller runs is linearized from invocation/response tickets and re-executed sequentially on the implementation and on the model; non-trivial = history with at least one wrap or at least two goroutines",
 		Quick:    1100,
 		Thorough: 66000,
 		Gen: func(r *RNG, tier string, n int, emit func(op int, toks ...Tok)) {
@@ -217,6 +287,25 @@ func init() {
 			for k := 0; k < 40; k++ {
 				c := r.Fork(uint64(9000 + k))
 				emit(702, TI(int64(c.Intn(40000))), TList{TI(0), TI(1), TI(0)})
+			}
+			// stress: several wraps with every goroutine reading the rollover count around each call
+			{
+				rounds, perG := 3, 70000
+				if tier == "thorough" {
+					rounds, perG = 12, 400000
+				}
+				for k := 0; k < rounds; k++ {
+					st := uint16(65536 - 300 + 97*k)
+					if win, why := stressRun(rtp.NewFixedSequencer(st), 16, perG); why != "" {
+						tl := TList{}
+						for _, t := range win {
+							tl = append(tl, TList{TU(t.r0), TU(t.v), TU(t.r1)})
+						}
+						emit(703, tl)
+					}
+				}
+				// a consistent trace, so that the opcode is exercised on the unchanged tree too
+				emit(703, TList{TList{TU(0), TU(65535), TU(0)}, TList{TU(0), TU(0), TU(1)}, TList{TU(1), TU(1), TU(1)}})
 			}
 			for i := 0; i < n; i++ {
 				c := r.Fork(uint64(i))
@@ -261,6 +350,19 @@ func init() {
 		},
 		Run: func(op int, toks []Tok) Outcome {
 			var o Outcome
+			if op == 703 {
+				// a recorded per-goroutine trace [[r0 v r1]...]: the replay of a concurrency violation
+				var tr []triple
+				for _, t := range tokList(toks[0]) {
+					l := tokList(t)
+					tr = append(tr, triple{l[0].(TInt).V.Uint64(), l[1].(TInt).V.Uint64(), l[2].(TInt).V.Uint64()})
+				}
+				o.Impl, o.Nontrivial = Unit, true
+				if i, why := traceViolation(tr); i >= 0 {
+					o.Fail = "concurrent history is not linearizable to a counter: " + why
+				}
+				return o
+			}
 			var kind int
 			var start int64
 			var ops []Tok
